@@ -1392,8 +1392,20 @@ func (w *envelopingWriter) Write(data []byte) (n int, err error) {
 				return written, nil
 			}
 		} else {
-			// flush after each message and reset for next envelope
+			// flush after each message
 			w.rw.flushMessage()
+			if w.rw.op.serverEnveloper == nil {
+				// The server protocol has no envelopes: the body is a single message
+				// of the declared content length, which is now complete.
+				if len(data) > 0 {
+					err := fmt.Errorf("handler wrote %d bytes more than the declared content length", len(data))
+					w.rw.reportError(err)
+					w.err = err
+					return written, err
+				}
+				return written, nil
+			}
+			// reset for next envelope
 			w.writingEnvelope = true
 			w.remainingBytes = envelopeLen
 		}
@@ -1540,7 +1552,7 @@ func (w *envelopingWriter) maybeInit() {
 		return
 	}
 	w.current = w.w
-	w.remainingBytes = envelopeLen
+	w.remainingBytes = w.rw.contentLen
 }
 
 func (w *envelopingWriter) handleTrailer() error {
